@@ -37,7 +37,7 @@ func prefixed(name string, rel ...string) []string {
 }
 
 func (SubsScenario) GenCase(r *rand.Rand, prop string) interface{} {
-	c := &SvcCase{Gate: true, Epochs: 1, MidStop: []int{-1}, Optional: []string{"conn.Subscribe", "conn.Publish", "event", "worker.beforeCb", "handleRequest"}}
+	c := &SvcCase{Gate: true, Epochs: 1, MidStop: []int{-1}, Optional: []string{"conn.Subscribe", "conn.Publish", "event", "worker.beforeCb", "handleRequest", "Shutdown.afterWait"}}
 	c.SvcName = pick(r, "test", "test", "test", "a.b", "")
 	c.Workers = pick(r, 1, 2, 4)
 	c.InCh = 1024
@@ -121,6 +121,19 @@ func (SubsScenario) GenCase(r *rand.Rand, prop string) interface{} {
 		}
 		c.Owned = &own
 	}
+	if c.Epochs > 1 && chance(r, 40) {
+		// the second Serve call is made with other ownership lists
+		var own2 [2][]string
+		own2[0] = prefixed(c.SvcName, pick(r, lists...)...)
+		own2[1] = prefixed(c.SvcName, pick(r, lists...)...)
+		if own2[0] == nil {
+			own2[0] = []string{}
+		}
+		if own2[1] == nil {
+			own2[1] = []string{}
+		}
+		c.Owned2 = &own2
+	}
 	// end-to-end requests
 	peer := ActorSpec{Name: "peer"}
 	id := 0
@@ -187,6 +200,16 @@ func (SubsScenario) Execute(sim *sched.Sim, ci interface{}, prop string, race bo
 }
 
 // ownedModel returns the expected owned resource and access pattern sets.
+// ownedModelEp is ownedModel for the given epoch of the case.
+func ownedModelEp(c *SvcCase, ep int) (resources, access []string) {
+	if ep >= 1 && c.Owned2 != nil {
+		cc := *c
+		cc.Owned = c.Owned2
+		return ownedModel(&cc)
+	}
+	return ownedModel(c)
+}
+
 func ownedModel(c *SvcCase) (resources, access []string) {
 	anyRes, anyAcc := false, false
 	for _, p := range c.Pats {
@@ -294,7 +317,7 @@ func (e *Engine) checkSubs(ep int) {
 	e.subsChecked[ep] = true
 	c := e.Case
 	conn := e.Epochs[ep].Conn
-	resources, access := ownedModel(c)
+	resources, access := ownedModelEp(c, ep)
 	resSet, accSet := setOf(resources), setOf(access)
 	// (3) system.reset content
 	pubs := conn.PubsSnapshot()
@@ -342,6 +365,25 @@ func (e *Engine) checkSubs(ep int) {
 			nresetServe++
 		}
 		e.H.Evals++
+		if ep >= 1 && c.Owned2 != nil && p.Task != serveTask {
+			// a ResetAll (or the announcement after a reconnect) begun
+			// before the ownership was changed carries the lists of its
+			// time, even if it is published on the new connection
+			oldRes, oldAcc := ownedModelEp(c, 0)
+			stale := false
+			for _, sub := range e.Subs {
+				if sub != nil && sub.Actor == p.Task && sub.Invoke != 0 && sub.Invoke < e.Epochs[ep].ServeInvoke && (sub.Return == 0 || sub.Return > p.Seq) {
+					stale = true
+				}
+			}
+			if strings.HasPrefix(p.Task, "conncb") || strings.HasPrefix(p.Task, "serve") {
+				stale = true // callbacks of the previous connection, the previous Serve call
+			}
+			if stale && fmt.Sprint(setOf(ev.Resources)) == fmt.Sprint(setOf(oldRes)) && fmt.Sprint(setOf(ev.Access)) == fmt.Sprint(setOf(oldAcc)) {
+				e.Sim.Probe("announcement begun before the ownership change, published after it")
+				continue
+			}
+		}
 		if fmt.Sprint(setOf(ev.Resources)) != fmt.Sprint(resSet) || fmt.Sprint(setOf(ev.Access)) != fmt.Sprint(accSet) {
 			e.H.Violate("C09", "reset-content", "", fmt.Sprintf("service %q owned=%v: system.reset announced resources=%v access=%v, expected resources=%v access=%v", c.SvcName, c.Owned, ev.Resources, ev.Access, resSet, accSet))
 		}
